@@ -189,7 +189,7 @@ impl CsrInfo { pub fn key_id(&self) -> KeyIdentifier { unimplemented!() } }
     U.impl('impl CertAuth', [
         U.fn(CA, 'CertAuth', 'get_child', requires=[('km', km)], ensures=[
             ('known', 'r is Ok <==> self.children@.contains_key(*child)'), ('details', 'r is Ok ==> *r->Ok_0 == self.children@[*child]')]),
-        U.fn(CA, 'CertAuth', 'process_child_remove', requires=[('km', km)],
+        U.fn(CA, 'CertAuth', 'process_child_remove', requires=[('km', km)], hash_loops=(0,),
              ensures=[
                  ('every_certificate_of_the_child_is_revoked', '''r is Ok ==> forall |n: ResourceClassName| #[trigger] self.resources@.contains_key(n) ==>
                         class_removed(r->Ok_0@, n, self.resources@[n], child_keys(self.children@[*child_handle], n))'''),
@@ -208,7 +208,7 @@ impl CsrInfo { pub fn key_id(&self) -> KeyIdentifier { unimplemented!() } }
                 lemma_class_removed_mono(g_after, res@.last(), n, self.resources@[n], child_keys(*child, n));
             }
         }''')]),
-        U.fn(CA, 'CertAuth', 'process_child_suspend_inactive', requires=[('km', km)],
+        U.fn(CA, 'CertAuth', 'process_child_suspend_inactive', requires=[('km', km)], hash_loops=(0,),
              ensures=[
                  ('every_certificate_of_the_child_is_suspended', '''r is Ok && !(self.children@[*child_handle].state is Suspended) ==> forall |n: ResourceClassName| #[trigger] self.resources@.contains_key(n) ==>
                         class_suspended(r->Ok_0@, n, self.resources@[n], child_keys(self.children@[*child_handle], n))'''),
